@@ -117,6 +117,7 @@ def run_impl(start, explicit, accept, beta_err_versions):
     cluster.connection_factory = factory
     cc = cluster.control_connection
     cc._is_shutdown = False
+    cc._protocol_version = cluster.protocol_version     # what ControlConnection.connect() records before it starts negotiating
 
     class H(object):
         endpoint = 'h1'
@@ -164,27 +165,50 @@ def unsupported_visible_before_wakeup():
             Connection.__init__(self, '127.0.0.1', protocol_version=4)
             self.connected_event = Ev(self)
 
+        def defunct(self, exc):
+            self.last_error = self.last_error or exc
+            return Connection.defunct(self, exc)
+
         def close(self):
             self.is_closed = True
             self.connected_event.set()
 
         def push(self, data):
             pass
-    c = NoSock()
-    got = []
-    c._requests[0] = (got.append, __import__('cassandra.protocol').protocol.ProtocolHandler.decode_message, None)
-    msg = b'Invalid or unsupported protocol version: 4'
-    body = struct.pack('>i', 0x000A) + struct.pack('>H', len(msg)) + msg
-    import inspect
-    hdr = _Frame(version=4, flags=0, stream=0, opcode=0, body_offset=9, end_pos=9 + len(body))
-    c.process_msg(hdr, body)
-    if not c.is_unsupported_proto_version:
-        return 'is_unsupported_proto_version not set after an unsupported-version ERROR'
-    if not snap:
-        return 'connected_event not set after an unsupported-version ERROR (factory() would hang until its timeout)'
-    if not snap[0]:
-        return 'connected_event was set before is_unsupported_proto_version: a waiter in Connection.factory() can see the raw ' \
-               'ProtocolException instead of ProtocolVersionUnsupported and the negotiation never steps down'
+    import cassandra.protocol as PR
+    problems = []
+    # the rejection is framed in the SERVER's own highest version (8-byte header below v3, 9-byte from v3 on), whatever
+    # version the connection asked for: every (requested, server) pair, through the real process_io_buffer
+    for pv in (1, 2, 3, 4, 5, 6, 65, 66):
+        for sv in (1, 2, 3, 4, 5):
+            del snap[:]
+            c = NoSock()
+            c.protocol_version = pv
+            got = []
+            c._requests[0] = (got.append, PR.ProtocolHandler.decode_message, None)
+            msg = b'Invalid or unsupported protocol version: %d' % pv
+            body = struct.pack('>i', 0x000A) + struct.pack('>H', len(msg)) + msg
+            if sv < 3:
+                frame = struct.pack('>BBbB', 0x80 | sv, 0, 0, 0) + struct.pack('>i', len(body)) + body
+            else:
+                frame = struct.pack('>BBhB', 0x80 | sv, 0, 0, 0) + struct.pack('>i', len(body)) + body
+            try:
+                c._iobuf.write(frame)
+                c.process_io_buffer()
+            except Exception as e:
+                problems.append('requested v%d, server answers in v%d: process_io_buffer raised %r' % (pv, sv, e))
+                continue
+            where = 'requested v%d, rejection framed in v%d' % (pv, sv)
+            if not c.is_unsupported_proto_version:
+                problems.append('%s: is_unsupported_proto_version not set (frames parsed: %d, buffered %d bytes): the negotiation cannot step down'
+                                % (where, len(got), c._iobuf.io_buffer.tell() if hasattr(c._iobuf, 'io_buffer') else -1))
+            elif not snap:
+                problems.append('%s: connected_event not set after the unsupported-version ERROR (factory() would hang until its timeout)' % where)
+            elif not snap[0]:
+                problems.append('%s: connected_event was set before is_unsupported_proto_version: a waiter in Connection.factory() can see the raw '
+                                'ProtocolException instead of ProtocolVersionUnsupported and the negotiation never steps down' % where)
+    if problems:
+        return '; '.join(problems[:3]) + (' (+%d more)' % (len(problems) - 3) if len(problems) > 3 else '')
     return None
 
 
@@ -220,8 +244,10 @@ def run(ctx):
     for start in starts:
         for acc in subsets:
             for explicit in (False, True):
-                for beta_mode in (False, True):
-                    beta_err = beta if beta_mode else set()
+                # a server may know as beta a version the driver regards as released (Cassandra 3.10/3.11: v5 beta): 'beta' answers
+                # for the driver's own beta versions, for v5, and for v5 + the driver's beta versions
+                for beta_mode in (False, True, 5, 55):
+                    beta_err = {False: set(), True: beta, 5: {5}, 55: beta | {5}}[beta_mode]
                     tried, out, final_pv = run_impl(start, explicit, acc, beta_err)
                     ctx.case([start, sorted(acc), explicit, beta_mode], nontrivial=len(tried) > 1,
                              sample={'start': start, 'server_accepts': sorted(acc), 'explicit': explicit, 'beta_error': beta_mode,
@@ -276,7 +302,7 @@ def run(ctx):
         ctx.proof_broken.append(('harness:unsupported_visible_before_wakeup', repr(e)[:300]))
     ctx.case(['wakeup-order'], nontrivial=True)
     if prob:
-        ctx.violation('connection.unsupported-flag-after-wakeup', prob, case={'probe': 'unsupported_visible_before_wakeup'},
+        ctx.violation('connection.unsupported-flag-after-wakeup' if 'was set before' in prob else 'connection.rejection-frame-not-recognised', prob, case={'probe': 'unsupported_visible_before_wakeup'},
                       kind='interleaving', expected='flag set before connected_event', actual=prob, theorem='C41 (input of the loop model)')
     # get_lower_supported / predicates: translation validation on a range of integers
     pcases, pmeta = [], []
@@ -315,7 +341,9 @@ def replay(ctx, rp):
         print('nothing to replay: %s' % rp.get('theorem'))
         return 1
     from cassandra import ProtocolVersion as PV
-    tried, out, _ = run_impl(c['start'], c['explicit'], set(c['accept']), set(PV.BETA_VERSIONS) if c['beta_error'] else set())
+    bm = c['beta_error']
+    beta_err = {False: set(), True: set(PV.BETA_VERSIONS), 5: {5}, 55: set(PV.BETA_VERSIONS) | {5}}[bm]
+    tried, out, _ = run_impl(c['start'], c['explicit'], set(c['accept']), beta_err)
     print('replay %r -> tried %r outcome %s (recorded %r)' % (c, tried, out, rp.get('actual')))
     same = {'tried': tried, 'outcome': out} == rp.get('actual')
     print(('VIOLATION property=C41 replay=%s' % ctx.replay_path) if same else 'not reproduced')
